@@ -49,6 +49,22 @@ def compact_B_from_mats(mats, n: int) -> np.ndarray:
 # ----------------------------------------------------------------------------
 
 
+def char_len(x, g, lb, ub, theta: float = 1.0, *extra) -> float:
+    """Characteristic length of a problem instance (so that tolerances mean the same thing whatever the units
+    x is measured in): the largest of |x|, the finite bounds, the natural step |g|/theta and any extra vectors."""
+    vals = [float(np.max(np.abs(x))) if np.size(x) else 0.0]
+    for b in (lb, ub):
+        fin = np.abs(b[np.isfinite(b)])
+        if fin.size:
+            vals.append(float(fin.max()))
+    if theta and np.isfinite(theta) and theta > 0:
+        vals.append(float(np.max(np.abs(g))) / float(theta))
+    for e in extra:
+        if np.size(e):
+            vals.append(float(np.max(np.abs(e))))
+    return max(max(vals), 1e-300)
+
+
 def breakpoints(x, g, lb, ub) -> np.ndarray:
     t = np.full(x.size, np.inf)
     with np.errstate(divide="ignore", invalid="ignore"):
@@ -103,7 +119,7 @@ def ref_cauchy_point(x, g, lb, ub, B) -> Tuple[np.ndarray, float]:
     return xc, t_old
 
 
-def gcp_predicate(x, g, lb, ub, B, xc, rel: float = 1e-9) -> Tuple[bool, str, dict]:
+def gcp_predicate(x, g, lb, ub, B, xc, rel: float = 1e-9, L0: float = 1.0) -> Tuple[bool, str, dict]:
     """Validity predicate of the generalized Cauchy point (DESIGN C08).  Returns
     (ok, failed_clause, info)."""
     n = x.size
@@ -129,7 +145,7 @@ def gcp_predicate(x, g, lb, ub, B, xc, rel: float = 1e-9) -> Tuple[bool, str, di
         if not np.isfinite(tc) or tc < 0:
             continue
         pp = path_point(x, g, lb, ub, tc)
-        xs = 1.0 + np.maximum(np.abs(x), np.abs(pp))
+        xs = L0 + np.maximum(np.abs(x), np.abs(pp))
         dv = np.abs(xc - pp)
         # a variable whose breakpoint coincides with tc may sit on either side of the rounding
         near = (tb > tc * (1.0 - 1e-7) - 1e-300) & (tb < tc * (1.0 + 1e-7) + 1e-300)
